@@ -24,7 +24,8 @@ func VerifC19ConditionMap() {
 	ann := map[string]string{manifestsv1alpha1.PackagePhaseAnnotation: verifrt.StringFrom("phase", "deploy", "unknown", "", "Deploy")}
 	if verifrt.Bool("hasConditionMap") {
 		ann[manifestsv1alpha1.PackageConditionMapAnnotation] = verifrt.StringFrom("conditionMap",
-			"Available => my/Available", "", "a", "=>b", "a=>", "a=>b\nc", "a=>b\n\nc=>d", " ", "=>")
+			"Available => my/Available", "", "a", "=>b", "a=>", "a=>b\nc", "a=>b\n\nc=>d", " ", "=>",
+			"a=>b\n  \nc=>d", "a=>b\n\t\nc=>d", "a=>b\n \n", "\n \na=>b", "a => b \n c => d", "a=>b=>c", "=>\n=>")
 	}
 	if verifrt.Bool("hasCollisionProtection") {
 		ann[manifestsv1alpha1.PackageCollisionProtectionAnnotation] = verifrt.StringFrom("collisionProtection", "Prevent", "bogus", "")
